@@ -154,7 +154,28 @@ def check_result_tier(s, result, exp_entry_alts, exp_lo, exp_hi, scale, ulps=4):
             break
         whys.append(why)
     else:
-        return "entries: %s; observed %r expected %r" % (whys[0], r["entries"], M.fmt_entries(exp_entry_alts[0]))
+        ok = False
+        if s["t"] == "P" and any(len(exp) == len(obs) for exp in exp_entry_alts):
+            # points that come to share a time (two times less than a rounding step apart land on one float) have no order of their own
+            # left: the tier keeps them in label order; within each run of equal observed times the expectation is compared as a set
+            for exp in exp_entry_alts:
+                if len(exp) != len(obs):
+                    continue
+                exp2, i = list(exp), 0
+                while i < len(obs):
+                    j = i + 1
+                    while j < len(obs) and obs[j][0] == obs[i][0]:
+                        j += 1
+                    if j - i > 1:
+                        exp2[i:j] = sorted(exp2[i:j], key=lambda e: e[-1])
+                        if [o[-1] for o in obs[i:j]] != [e[-1] for e in exp2[i:j]]:
+                            exp2[i:j] = [next(e for e in exp2[i:j] if e[-1] == o[-1]) if any(e[-1] == o[-1] for e in exp2[i:j]) else exp2[i + k] for k, o in enumerate(obs[i:j])]
+                    i = j
+                if M.entries_close(obs, exp2, scale, ulps) is None:
+                    ok = True
+                    break
+        if not ok:
+            return "entries: %s; observed %r expected %r" % (whys[0], r["entries"], M.fmt_entries(exp_entry_alts[0]))
     if not M.num_close(r["min"], exp_lo, scale, ulps) or not M.num_close(r["max"], exp_hi, scale, ulps):
         return "span [%r, %r], expected [%s, %s]" % (r["min"], r["max"], M.fmt(exp_lo), M.fmt(exp_hi))
     return None
